@@ -1,5 +1,11 @@
 package checks
 
+import (
+	"encoding/json"
+
+	"pgregory.net/rapid"
+)
+
 func init() {
 	Describe("C08", &PropInfo{
 		Rule: "grammars from the families productive/lalr/separators/nullable/prec (rapid generators, one seed per case) with random union fields, tags and linear actions; inputs = every string up to a length bound, sampled sentences (<= 25 tokens) and mutated sentences incl. undeclared token codes; each grammar is generated as go, go -u, go -o, go -o -u and typescript, the emitted files are compiled/loaded unchanged and run on every input; non-trivial = (grammar, input) whose parse performs >= 2 reductions (counted for accepted and rejected inputs separately in classes); distinct by grammar text + input",
@@ -9,6 +15,58 @@ func init() {
 			"verdict classes: accept / syntax (Go: panic starting with 'Grammar error'; TS: console.error + null) / crash / nilreturn / loop (more than 20000 reductions)",
 		},
 		Explanation: "pure differential oracle: verdict class, sequence of reductions (recorded by the actions), resulting value (all union fields) and number of tokens requested from the lexer must be equal across the five variants",
+	})
+	Register(&Unit{Prop: "C08", Name: "noaction",
+		Shards: func(tier string) int { return map[string]int{"quick": 2, "thorough": 8}[tier] },
+		Run: func(c *Ctx) {
+			c.P.Rule = "as diff, but a quarter of the rules are written without any action (their value is whatever each backend defaults to): verdict, recorded reductions, value and tokens requested must still agree across the five variants"
+			n := c.Pick(24, 300)
+			g := rapid.Custom(func(t *rapid.T) *TGCase {
+				cs := drawTG(t, []string{"productive", "lalr", "separators", "prec"}, 80, 10)
+				some := false
+				for i := range cs.Spec.Rules {
+					// only rules with a non-empty rhs: empty rules keep their rec() call, so
+					// that a reduction loop in a conflicted grammar still hits the step limit
+					hasTerminal := false
+					for _, x := range cs.Spec.Rules[i].RHS {
+						hasTerminal = hasTerminal || x < len(cs.Spec.Terms)
+					}
+					// (a reduction loop consumes no input, so it consists of rules without
+					// terminals; those keep their rec() call and hit the step limit)
+					if hasTerminal && rapid.IntRange(0, 2).Draw(t, "noact") == 0 {
+						cs.Spec.Rules[i].NoAct = true
+						some = true
+					}
+				}
+				_ = some
+				return cs
+			})
+			props := map[string]bool{"C08": true}
+			for done := 0; done < n; done += 24 {
+				var cases []*TGCase
+				for i := 0; i < 24 && done+i < n; i++ {
+					cases = append(cases, g.Example(int(c.SubSeed("case", done+i)>>1)))
+				}
+				if runAndEvalTG(c, cases, props) {
+					return
+				}
+			}
+		},
+		Replay: func(c *Ctx, raw json.RawMessage) string {
+			var cs TGCase
+			if m := decodeCase(raw, &cs); m != "" {
+				return m
+			}
+			res, cleanup := runTG(c, []*TGCase{&cs}, false)
+			defer cleanup()
+			if res == nil {
+				return ""
+			}
+			if vs := evalTG(c, &cs, res["g0"], map[string]bool{"C08": true}); len(vs) > 0 {
+				return vs[0].Msg
+			}
+			return ""
+		},
 	})
 	tgUnit("C08", "diff", []string{"productive", "lalr", "separators", "nullable", "prec", "prec-sep", "longrule", "longrule", "dup"}, 36, 500, 4, 8, 120, 12)
 }
